@@ -13,7 +13,7 @@ use std::borrow::Borrow;
 // ---------------------------------------------------------------------------
 // MD5 as an uninterpreted function (Ackermann reduction)
 
-pub const UF_MAX_CALLS: usize = 8;
+pub const UF_MAX_CALLS: usize = 16;
 pub const UF_MAX_IN: usize = 40;
 
 #[cfg(kani)]
